@@ -150,11 +150,11 @@ CLAIMS.update({
     note='Partial: quoted maps, rdflib graph merging and validate_mappings are decided by the correspondence only. Genuine defect repaired (fix: c61aea7).',
     technique='Coq proof (union over closed parts, renaming invariance) + differential check over document layouts', ref='0.3 C12'),
  'C13': dict(
-    text='Proof (Coq), partial + correspondence. Theorems: any pipeline of row-wise frame stages is one function of the row (frame_pipeline_is_rowwise); for a quoted triples map in subject position over the same rows, '
-         'every statement is << t >> p o [g] with t exactly the triple the generation rules give the quoted map for that row, and none iff a part is missing (quoted_subject_embeds_the_quoted_triple_partial, '
-         'quoted_rule_statements_partial); only asserted rules contribute and assertedness is inherited from the triples map (only_asserted_rules_contribute, rules_inherit_assertedness). '
+    text='Proof (Coq), partial + correspondence. Theorems: any pipeline of row-wise frame stages is one function of the row (frame_pipeline_is_rowwise); for a quoted triples map in subject or in object position over the same rows, '
+         'every statement is << t >> p o [g] (resp. s p << t >> [g]) with t exactly the triple the generation rules give the quoted map for that row, and none iff a part is missing (quoted_subject_embeds_the_quoted_triple_partial, '
+         'quoted_rule_statements_partial, quoted_object_embeds_the_quoted_triple_partial, quoted_object_rule_statements_partial); only asserted rules contribute and assertedness is inherited from the triples map (only_asserted_rules_contribute, rules_inherit_assertedness). '
          'Correspondence: nestings of depth 1-3, subject / object / both, joins, asserted / non-asserted, NULLs, against the Engine model and the (depth-recursive) Spec.',
-    note='Partial: quoted objects, joins and deeper nestings by correspondence only. Known finding: repeated joins on one frame fail.',
+    note='Partial: quoted maps with join conditions and deeper nestings by correspondence only. Known finding: repeated joins on one frame fail.',
     technique='Coq proof (quoted subject embeds the quoted triple) + ' + CORR, ref='0.3 C13'),
  'C14': dict(
     text='Proof (Coq), partial + correspondence. Theorems: _materialize_fnml_template substitutes the raw row values (fnml_template_is_substitution); for an execution over constants, references and templates the values '
